@@ -239,7 +239,7 @@ fn toy<F: PrimeField>(rng: &mut Rng, out: &mut Out, t: &Toy) {
         for f in el.iter().take(3) { dd_scaled(&mut c, a, f, b); }
     } }
     // canonical: remaining ops on short operands exhaustively, on the rest sampled
-    let short: Vec<&Vec<F>> = can.iter().cloned().filter(|v| v.len() <= 2).collect();
+    let short: Vec<&Vec<F>> = can.iter().cloned().filter(|v| v.len() <= (if p <= 7 { 2 } else { 1 })).collect();
     for a in &short { for b in &short { dd_more(&mut c, a, b); for f in &fsel { dd_scaled(&mut c, a, f, b); } } }
     for _ in 0..t.sample {
         let a = &toy_vec(rng, &el, t.pool_len); let b = &toy_vec(rng, &el, t.pool_len);
@@ -437,7 +437,7 @@ fn big<F: PrimeField>(rng: &mut Rng, out: &mut Out, thorough: bool) {
         let mut ls: Vec<usize> = vec![0, 1, 2, n.saturating_sub(1), n, n + 1, 2 * n - 1, 2 * n, 2 * n + 1, 3 * n, 3 * n + 2, 4 * n + 1];
         if n >= 8 { ls.push(n / 4); ls.push(n / 4 + 1); }
         ls.sort(); ls.dedup();
-        for _ in 0..reps { for &l in &ls {
+        for _ in 0..(if n >= 16 { reps.min(2) } else { reps }) { for &l in &ls {
             let a = rand_dense::<F>(rng, l); dom_ops(&mut c, &a, d);
             // multiples of the vanishing polynomial plus a low remainder
             if l > 0 { let m = dp(&a).naive_mul(&DensePolynomial::from(d.vanishing_polynomial())).coeffs; dom_ops(&mut c, &m, d);
@@ -474,7 +474,7 @@ fn main() {
                                          else { Toy { lc: 2, ln: 1, ls_terms: 2, dense_for_sparse: 1, sample: 600, raw_len: 2, pool_len: 5, few_cap: 30, max_offsets: 4 } });
     }
     if want("f13") {
-        toy::<FDT13>(&mut rng, &mut out, &if th { Toy { lc: 2, ln: 2, ls_terms: 2, dense_for_sparse: 2, sample: 10000, raw_len: 3, pool_len: 6, few_cap: 80, max_offsets: 12 } }
+        toy::<FDT13>(&mut rng, &mut out, &if th { Toy { lc: 2, ln: 1, ls_terms: 2, dense_for_sparse: 1, sample: 10000, raw_len: 3, pool_len: 6, few_cap: 80, max_offsets: 12 } }
                                           else { Toy { lc: 1, ln: 1, ls_terms: 1, dense_for_sparse: 2, sample: 600, raw_len: 2, pool_len: 5, few_cap: 30, max_offsets: 4 } });
     }
     if want("fr") { big::<ark_test_curves::bls12_381::Fr>(&mut rng, &mut out, th); }
